@@ -24,7 +24,9 @@ class Point(Domain):
 
     def __call__(self, **data):
         new_point = self.point.partially_evaluate(**data)
-        return Point(space=self.space, point=new_point)
+        return self._evaluate_user_volume(
+            Point(space=self.space, point=new_point), **data
+        )
 
     def _contains(self, points, params=Points.empty()):
         point_params = self.point(points.join(params))
